@@ -643,6 +643,10 @@ func TestVerifC10(t *testing.T) {
 					harnessErrs = append(harnessErrs, fmt.Sprintf("worker watchdog expired on %v", path))
 					return nil
 				}
+				if r.Crashed && !vrt.CrashInCodeUnderTest(r.Stderr) {
+					harnessErrs = append(harnessErrs, fmt.Sprintf("worker died outside the code under test on %v: %.300s", path, r.Stderr))
+					return nil
+				}
 				if r.Crashed {
 					res.Violate("pool/process-crash", fmt.Sprintf("%s size %d path %v: the worker process died\n%.1500s", role, size, path, r.Stderr), vfPoolJob{Sc: sc, Path: path})
 					return nil
